@@ -348,6 +348,32 @@ func genReq(t *rapid.T, label string, intact *bool) Req {
 				{"query vector of the wrong length inside a pre-filter", func(b map[string]any) {
 					b["query"] = map[string]any{"property": "description", "text": map[string]any{"value": "ring", "operator": "containsAny", "limit": 5.0, "filter": map[string]any{"property": "flat", "vectorFlat": map[string]any{"vector": []any{1.0, 2.0, 3.0}, "operator": "near", "limit": 10.0}}}}
 				}},
+				{"schema-violating leaf at a random position of a query tree", func(b map[string]any) {
+					leaf := rapid.SampledFrom([]map[string]any{
+						{"property": "flat", "vectorFlat": map[string]any{"vector": []any{1.0, 2.0, 3.0}, "operator": "near", "limit": 10.0}},
+						{"property": "vector", "vectorVamana": map[string]any{"vector": []any{1.0}, "operator": "near", "searchSize": 75.0, "limit": 10.0}},
+						{"property": "colour", "string": map[string]any{"value": "red", "operator": "equals"}},
+						{"property": "size", "string": map[string]any{"value": "1", "operator": "equals"}},
+						{"property": "price", "integer": map[string]any{"value": 1.0, "operator": "equals"}},
+					}).Draw(t, label+"-badleaf")
+					// a tree of two or three levels with the bad leaf somewhere in it
+					ops := []string{"_and", "_or"}
+					node := leaf
+					depth := rapid.IntRange(1, 3).Draw(t, label+"-baddepth")
+					for d := 0; d < depth; d++ {
+						op := rapid.SampledFrom(ops).Draw(t, fmt.Sprintf("%s-badop%d", label, d))
+						sib := map[string]any{"property": "size", "integer": map[string]any{"value": 3.0, "operator": "equals"}}
+						children := []any{sib, node}
+						if rapid.Bool().Draw(t, fmt.Sprintf("%s-badpos%d", label, d)) {
+							children = []any{node, sib}
+						}
+						node = map[string]any{"property": op, op: children}
+					}
+					if rapid.Bool().Draw(t, label+"-badinfilter") {
+						node = map[string]any{"property": "description", "text": map[string]any{"value": "ring", "operator": "containsAny", "limit": 5.0, "filter": node}}
+					}
+					b["query"] = node
+				}},
 				{"vector limit 76", func(b map[string]any) {
 					b["query"] = map[string]any{"property": "flat", "vectorFlat": map[string]any{"vector": []any{1.0, 2.0}, "operator": "near", "limit": 76.0}}
 				}},
